@@ -255,6 +255,67 @@ inline void build(program &P, const std::string &name) {
     e.bool_assign(b2, le(E(P.K(7)), E(x)));
     xx.bool_assume(b1);
     P.asrt(xx, le(E(x), E(P.K(12))));
+  } else if (name == "bsel") { // select whose destination occurs in its own condition
+    var_t x = P.iv("x");
+    P.mk("e", "x");
+    auto &e = P.cfg->insert("e");
+    auto &c = P.cfg->insert("c");
+    auto &xx = P.cfg->insert("x");
+    e >> c; c >> xx;
+    // x is not initialised: its value at the entry is arbitrary (and observable in the precondition)
+    e.select(x, le(E(P.K(10)), E(x)), E(P.K(0)), E(x));
+    P.asrt(c, le(E(x), E(P.K(5))));
+  } else if (name == "bsel2") { // a select whose condition is decided by the forward invariant
+    var_t x = P.iv("x"), k = P.iv("k");
+    P.mk("e", "x");
+    auto &e = P.cfg->insert("e");
+    auto &s2 = P.cfg->insert("s");
+    auto &c = P.cfg->insert("c");
+    auto &sk = P.cfg->insert("skip");
+    auto &xx = P.cfg->insert("x");
+    e >> s2; s2 >> c; s2 >> sk; c >> xx; sk >> xx;
+    e.assign(k, E(P.K(0)));
+    s2.select(x, le(E(P.K(1)), E(k)), E(P.K(0)), E(P.K(20)));
+    P.asrt(c, le(E(x), E(P.K(10))));
+  } else if (name == "bdiv") { // non-invertible operations before an assertion
+    var_t x = P.iv("x"), y = P.iv("y"), z = P.iv("z");
+    P.mk("e", "x");
+    auto &e = P.cfg->insert("e");
+    auto &c = P.cfg->insert("c");
+    auto &xx = P.cfg->insert("x");
+    e >> c; c >> xx;
+    e.div(x, y, P.K(2));
+    e.mul(z, x, P.K(3));
+    e.rem(y, y, znum(4));
+    P.asrt(c, le(E(z), E(P.K(9))));
+    P.asrt(c, le(E(y), E(P.K(2))));
+  } else if (name == "bloop") { // assertion inside a loop
+    var_t i = P.iv("i"), s = P.iv("s");
+    P.mk("entry", "exit");
+    auto &entry = P.cfg->insert("entry");
+    auto &head = P.cfg->insert("head");
+    auto &body = P.cfg->insert("body");
+    auto &ex = P.cfg->insert("exit");
+    entry >> head; head >> body; body >> head; head >> ex;
+    entry.havoc(s);
+    entry.assign(i, E(P.K(0)));
+    body.assume(lt(E(i), E(P.K(3))));
+    body.add(s, s, i);
+    P.asrt(body, le(E(s), E(P.K(6))));
+    body.add(i, i, znum(1));
+    ex.assume(le(E(P.consts[1].num()), E(i)));
+  } else if (name == "noexit") { // an assertion in a part of the CFG from which the exit cannot be reached
+    var_t x = P.iv("x");
+    P.mk("e", "x");
+    auto &e = P.cfg->insert("e");
+    auto &ok = P.cfg->insert("ok");
+    auto &n = P.cfg->insert("n");
+    auto &m = P.cfg->insert("m");
+    auto &xx = P.cfg->insert("x");
+    e >> ok; e >> n; ok >> xx; n >> m; m >> m;
+    e.assign(x, E(P.K(0)));
+    n.add(x, x, P.K(0));
+    P.asrt(m, le(E(P.K(1)), E(x)));
   } else
     throw sxe::no_verdict{"unknown-program"};
 }
